@@ -202,6 +202,8 @@ pub fn run(env: &Env) {
                     pc.push(("other ph".into(), p.clone(), b"hdr".to_vec(), b"pH".to_vec(), dm.clone(), d.clone()));
                     pc.push(("other header".into(), p.clone(), b"hdR".to_vec(), b"ph".to_vec(), dm.clone(), d.clone()));
                     if !d.is_empty() { let mut x = dm.clone(); x[0].push(1); pc.push(("first disclosed message altered".into(), p.clone(), b"hdr".to_vec(), b"ph".to_vec(), x, d.clone())); let mut di = d.clone(); let last = di.len() - 1; di[last] += 1; pc.push(("last index + 1".into(), p.clone(), b"hdr".to_vec(), b"ph".to_vec(), dm.clone(), di)); }
+                    for t in [1usize, 31, 32, 33] { let mut x = p.clone(); x.extend(vec![0u8; t]); pc.push((format!("{} trailing zero octets", t), x, b"hdr".to_vec(), b"ph".to_vec(), dm.clone(), d.clone())); }
+                    for t in [1usize, 32] { pc.push((format!("truncated by {} octets", t), p[..p.len() - t].to_vec(), b"hdr".to_vec(), b"ph".to_vec(), dm.clone(), d.clone())); }
                     for bit in (0..p.len() * 8).step_by(61) { pc.push((format!("proof bit {} flipped", bit), flip(&p, bit), b"hdr".to_vec(), b"ph".to_vec(), dm.clone(), d.clone())); }
                     for (name, pp, h, ph, m, di) in pc {
                         env.ctx.state(&[id.as_bytes(), format!("{:?}", d).as_bytes(), name.as_bytes()]);
